@@ -15,6 +15,8 @@ LEVEL = "other"
 TECHNIQUE = "symbolic execution (zsym, z3) of bounded edit histories over the real IR classes; post-condition: a raising call leaves the full public snapshot S(U) unchanged; each path's witness re-executed natively"
 
 RANGES = dict(gi=(0, 1), a=(0, 8), b=(-2, 4), c=(-1, 3), d=(0, 12))
+RANGES_FINAL_K2 = dict(gi=(0, 1), a=(0, 4), b=(-1, 2), c=(-1, 1), d=(0, 3))   # the rejected call after a prefix step
+K2_STRIDE = 40
 RANGES_PREFIX = dict(gi=(0, 1), a=(0, 5), b=(-1, 2), c=(-1, 1), d=(0, 3))
 
 
@@ -55,7 +57,7 @@ def make_case(tier, key):
         return hist.Case(f"k1[seed {seed}: {irlib.OPS[op]} raises]", ranges, body_for(seed, [], op), meta=_meta())
     _, seed, pre, op = key
     ranges = {f"{p}0": r for p, r in RANGES_PREFIX.items()}
-    ranges.update({f"{p}1": r for p, r in RANGES.items()})
+    ranges.update({f"{p}1": r for p, r in RANGES_FINAL_K2.items()})
     return hist.Case(f"k2[seed {seed}: {irlib.OPS[pre]} ; {irlib.OPS[op]} raises]", ranges, body_for(seed, [pre], op), meta=_meta())
 
 
@@ -78,7 +80,9 @@ def keys_for(tier):
     keys = [("k1", s, o) for s in range(irlib.N_SEEDS) for o in range(irlib.N_OPS)]
     if tier == "thorough":
         pres = [irlib.OPS.index(p) for p in PREFIXES]
-        keys += [("k2", s, p, o) for s in range(irlib.N_SEEDS) for p in pres for o in range(irlib.N_OPS)]
+        # (seed, prefix, final operation) triples with (seed + prefix index + operation) % K2_STRIDE == 0: every final operation meets
+        # 2 (seed, prefix) pairs; all 4640 triples would take ~28 h on 16 cores
+        keys += [("k2", s, p, o) for s in range(irlib.N_SEEDS) for i, p in enumerate(pres) for o in range(irlib.N_OPS) if (s + i + o) % K2_STRIDE == 0]
     return keys
 
 
@@ -93,7 +97,7 @@ def run(chk, tier):
         "the snapshot is taken through public accessors only (names, connections, uses, ownership flags, collections, types, shapes, constant tensors, node order)",
         "every explored path is re-executed natively with the path's witness and must give the same observation",
     )
-    chk.bounds = dict(history="the raising call alone from every seed" + ("; plus one prefix step from a set of state-changing operations" if tier == "thorough" else ""),
+    chk.bounds = dict(history="the raising call alone from every seed" + (f"; plus one prefix step from {PREFIXES}, for the (seed, prefix, operation) triples with (seed + prefix index + operation) % {K2_STRIDE} == 0, final-call parameters {RANGES_FINAL_K2}" if tier == "thorough" else ""),
                       seeds=irlib.N_SEEDS, operations=irlib.N_OPS)
     chk.not_decided += ["pre-states only reachable by longer histories", "name-authority internals that are not observable through public accessors"]
     hist.run_cases(chk, "harness.C06", "make_case", keys_for(tier))
